@@ -10,7 +10,7 @@ The endpoint interfaces in this module provide endpoint interfaces suitable for
 connecting streams to USB endpoints.
 """
 
-from amaranth       import Elaboratable, Module, Signal
+from amaranth       import Elaboratable, Module, Signal, Mux
 
 from ..endpoint     import EndpointInterface
 from ...stream      import StreamInterface, USBOutStreamBoundaryDetector
@@ -317,6 +317,9 @@ class USBStreamOutEndpoint(Elaboratable):
         # Stores whether we're in the middle of a transfer.
         transfer_active = Signal()
 
+        # Stores whether the packet we're receiving is a full (max-length) packet.
+        packet_is_full = Signal()
+
         #
         # Receiver logic.
         #
@@ -405,9 +408,12 @@ class USBStreamOutEndpoint(Elaboratable):
         with m.If(fifo.write_en):
             m.d.usb += rx_cnt.eq(rx_cnt + 1)
 
-            # Set the transfer active flag depending on whether this is a full packet.
+            # Note whether this is a full packet; a packet without data (ZLP) is not.
             with m.If(rx_last):
-                m.d.usb += transfer_active.eq(full_packet)
+                m.d.usb += packet_is_full.eq(full_packet)
+
+        with m.If(tokenizer.new_token):
+            m.d.usb += packet_is_full.eq(0)
 
         # We'll set the overflow flag if we're receiving data we don't have room for.
         with m.If(data_is_lost):
@@ -425,6 +431,10 @@ class USBStreamOutEndpoint(Elaboratable):
         # We'll toggle our DATA PID each time we issue an ACK to the host [USB 2.0: 8.6.2].
         with m.If(data_response_requested & data_accepted):
             m.d.usb += expected_data_toggle.eq(~expected_data_toggle)
+
+            # Only a packet we accept moves us along in the transfer: it continues after a full
+            # packet, and ends with a short one (including a ZLP). Discarded packets don't count.
+            m.d.usb += transfer_active.eq(Mux(fifo.write_en & rx_last, full_packet, packet_is_full))
 
         # If there has been a ClearFeature(ENDPOINT_HALT) request address to this endpoint...
         clear_endpoint_halt = \
